@@ -49,6 +49,10 @@ type c29Spec struct {
 	qtype string
 	attrs []string
 	cond  c08Cond
+	// later: the query's time range lies two days after everything stored (capture resumed after a long
+	// downtime, or just after midnight before the day's first write-out): the database contributes no day,
+	// the flows in memory are still part of the answer
+	later bool
 }
 
 // conditions: a handful of c08's (text, predicate) pairs incl. snet/dnet forms
@@ -71,13 +75,14 @@ func c29Specs(tier string) (out []c29Spec) {
 	}
 	for qi := 0; qi < 2; qi++ {
 		for _, ci := range c29CondIdx[:nc] {
-			out = append(out, c29Spec{c29QTypes[qi].name, c29QTypes[qi].attrs, c08Conds[ci]})
+			out = append(out, c29Spec{qtype: c29QTypes[qi].name, attrs: c29QTypes[qi].attrs, cond: c08Conds[ci]})
 		}
 	}
+	out = append(out, c29Spec{c29QTypes[0].name, c29QTypes[0].attrs, c08Conds[0], true}, c29Spec{c29QTypes[1].name, c29QTypes[1].attrs, c08Conds[8], true})
 	if tier == "thorough" { // the other attribute sets with "no condition" and one network condition
 		for qi := 2; qi < len(c29QTypes); qi++ {
 			for _, ci := range []int{0, 8} {
-				out = append(out, c29Spec{c29QTypes[qi].name, c29QTypes[qi].attrs, c08Conds[ci]})
+				out = append(out, c29Spec{qtype: c29QTypes[qi].name, attrs: c29QTypes[qi].attrs, cond: c08Conds[ci]})
 			}
 		}
 	}
@@ -231,10 +236,13 @@ func (w *c29World) close() {
 }
 
 // run executes the real engine; live adds the in-memory flows of the manager.
-func (w *c29World) run(qtype, cond string, live bool) (*results.Result, error) {
+func (w *c29World) run(qtype, cond string, live bool, later ...bool) (*results.Result, error) {
 	a := query.NewArgs(qtype, c29Iface)
 	a.Condition = cond
 	a.First = "1"
+	if len(later) > 0 && later[0] {
+		a.First = fmt.Sprint(c29T0 + 2*86400) // a live query has an open end
+	}
 	a.Format = "json"
 	a.NumResults = 1 << 40
 	a.MaxMemPct = 100
@@ -325,7 +333,7 @@ func c29Pkt(name string) mcPkt {
 }
 
 func c29Live(x *explore.Ctx, w *c29World, spec *c29Spec, pos int, ops []string) {
-	res, err := w.run(spec.qtype, spec.cond.text, true)
+	res, err := w.run(spec.qtype, spec.cond.text, true, spec.later)
 	x.Transition()
 	if w.diff {
 		if len(w.mem) > 0 || len(w.stored) > 0 {
@@ -341,8 +349,15 @@ func c29Live(x *explore.Ctx, w *c29World, spec *c29Spec, pos int, ops []string) 
 		return
 	}
 	where := fmt.Sprintf("live query %q cond %q at position %d of [%s] (%d block(s) stored, %d packet(s) in memory)", spec.qtype, spec.cond.text, pos, strings.Join(ops, " "), len(w.stored), len(w.mem))
+	if spec.later {
+		where += ", time range two days after everything stored"
+	}
 	// reference: stored blocks plus one pseudo block holding the in-memory flows
-	db := fixture.DB{Blocks: append(append([]fixture.Block(nil), w.stored...), fixture.Block{Iface: c29Iface, TS: c29T0 + 300*int64(w.nWrite), Recs: w.mem})}
+	stored := w.stored
+	if spec.later {
+		stored = nil // nothing stored lies in the queried range
+	}
+	db := fixture.DB{Blocks: append(append([]fixture.Block(nil), stored...), fixture.Block{Iface: c29Iface, TS: c29T0 + 300*int64(w.nWrite), Recs: w.mem})}
 	want := db.Aggregate(fixture.QuerySpec{Attrs: spec.attrs, Iface: true, Ifaces: []string{c29Iface}, First: 1, Last: 1 << 60, Cond: spec.cond.pred})
 	class := "stored+memory"
 	switch {
@@ -417,7 +432,7 @@ func c29IdleSchedules(tier string) []string {
 }
 
 func c29IdleSpecs(string) []c29Spec {
-	return []c29Spec{{c29QTypes[0].name, c29QTypes[0].attrs, c08Conds[0]}, {c29QTypes[1].name, c29QTypes[1].attrs, c08Conds[8]}}
+	return []c29Spec{{qtype: c29QTypes[0].name, attrs: c29QTypes[0].attrs, cond: c08Conds[0]}, {qtype: c29QTypes[1].name, attrs: c29QTypes[1].attrs, cond: c08Conds[8]}}
 }
 
 func c29IdleRun(x *explore.Ctx) {
@@ -519,7 +534,7 @@ func init() {
 	})
 	register("C29", &explore.Scenario{
 		ID: "C29", Name: "live queries at every subset of positions of a packet / write-out schedule", Level: "model_checking",
-		Rule:  "cases = schedule x query spec. Schedules: <=4 packets (mixed IPv4/IPv6 alphabet of C21; a4/c4 are the two directions of one conversation) and <=2 write-outs (quick: 9 hand-picked; thorough: every placement of 0-2 write-outs into every prefix of one packet sequence and into a second full sequence, 73 schedules). Query specs: attribute set {sip,dip,dport,proto | sip,dip} x conditions {none, sip=, dip=, snet=, dnet=, snet|sip, snet&dip, dnet|dnet (thorough also proto=, sip|sip v4/v6, !dnet, dport|dip)}, thorough also {dport,proto | sip} x {none, snet=}. Per case EVERY subset of the schedule's positions (before each step and at the end) carries a live query through the real QueryRunner with WithLiveData; rows are compared with a Go-map aggregation of stored blocks + in-memory flows under the condition's reference predicate; after a closing write-out a raw+time query over the database must equal the run without live queries and the reference blocks; non-trivial = live queries answered while flows were in memory, distinct by (stored/memory class, query, counts, condition)",
+		Rule:  "cases = schedule x query spec. Schedules: <=4 packets (mixed IPv4/IPv6 alphabet of C21; a4/c4 are the two directions of one conversation) and <=2 write-outs (quick: 9 hand-picked; thorough: every placement of 0-2 write-outs into every prefix of one packet sequence and into a second full sequence, 73 schedules). Query specs: attribute set {sip,dip,dport,proto | sip,dip} x conditions {none, sip=, dip=, snet=, dnet=, snet|sip, snet&dip, dnet|dnet (thorough also proto=, sip|sip v4/v6, !dnet, dport|dip)}, thorough also {dport,proto | sip} x {none, snet=}; plus two specs whose time range lies two days after everything stored (the database contributes no day, the flows in memory must still be returned). Per case EVERY subset of the schedule's positions (before each step and at the end) carries a live query through the real QueryRunner with WithLiveData; rows are compared with a Go-map aggregation of stored blocks + in-memory flows under the condition's reference predicate; after a closing write-out a raw+time query over the database must equal the run without live queries and the reference blocks; non-trivial = live queries answered while flows were in memory, distinct by (stored/memory class, query, counts, condition)",
 		Cases: func(t string) int { return len(c29Schedules(t)) * len(c29Specs(t)) * 4 },
 		Bound: func(string) int { return 0 },
 		Run:   c29Run, Setup: c29Setup, PanicSig: "panic",
